@@ -370,7 +370,25 @@ func execC20(x *Ctx, sc *wire.Scenario) *wire.Result {
 				lastW = w
 			}
 		}
-		if np == 1 && lastW != nil && !out.Stuck {
+		// (the same frame of the undisturbed run vouches for the script itself: a command that reprints a prompt of
+		// several lines in the wrong place does so without any Printf, which is C04's matter, not this rule's)
+		refOK := false
+		if lastW != nil {
+			if refW := waitAfter(ref, lastW.Tokens); refW != nil && refW.Screen != nil {
+				// ... and a command that prints something of its own and starts the input area again below it
+				// (print-last-kbd-macro, the dumps) legitimately comes between the message and the input area: in
+				// the undisturbed run the input area must start on one and the same row from the frame in which the
+				// event came to the judged one
+				refAt := waitAfter(ref, maxTok)
+				if sig, _ := judgeAbove(refW, promptUpper(sc.Env.Prompt)); sig == "" && refAt != nil && refAt.AnchorAbsRow == refW.AnchorAbsRow {
+					refOK = true
+				}
+			}
+			if !refOK {
+				res.Counters["skipped:reference_frame_damaged_above"]++
+			}
+		}
+		if np == 1 && lastW != nil && !out.Stuck && refOK {
 			head := "async message 0"
 			if pd.Kind == "printtransientf" {
 				head = "transient message 0"
@@ -378,7 +396,14 @@ func execC20(x *Ctx, sc *wire.Scenario) *wire.Result {
 			lines := strings.Split(head+pd.Msg, "\n")
 			lines = append(lines, promptUpper(sc.Env.Prompt)...)
 			if sig, msg := judgeAbove(lastW, lines); sig != "" {
-				return violation(res, "LAYOUT", "C20.printed-message-and-prompt-intact", name("screen:above-the-input-area"),
+				cls := "screen:above-the-input-area"
+				if sc.Plan.TypeWithReport > 0 {
+					// the user's next key is processed while the Printf caller's redisplay is still waiting for its
+					// cursor report: two redisplays write to the terminal at once (the listed root cause of the
+					// window "inside the processing of a key", reached here through the keyboard's timing)
+					cls += ":key-typed-during-the-printf"
+				}
+				return violation(res, "LAYOUT", "C20.printed-message-and-prompt-intact", name(cls),
 					fmt.Sprintf("disturbances %v: at the input wait after %d keys: %s", firedList, lastW.Tokens, msg))
 			}
 			res.Counters["frames_judged_above"]++
